@@ -82,19 +82,22 @@ Print Assumptions C08_two_ended_links_deleted.
 (* "... the service-side port": the ServicePort across a two-ended link from ANY interface the operation
    disconnects - the interfaces of the removed node / facility / switch / component and the sub-interfaces of
    their dedicated ports, the removed sub-interface, the disconnected interface (`disc_ifs`) - is deleted.
-   (Refuted before fix edd75a8 for sub-interfaces; holds of the repaired code, all graphs.)
-   NOT claimed for Node/Topology.remove_network_service and prune: they never disconnect (known finding). *)
+   (Refuted before fix edd75a8 for sub-interfaces; holds of the repaired code, all graphs.)  Since fix 18b6247
+   `disc_ifs` also covers Node/Topology.remove_network_service: the ports of the removed service and the sub-interfaces of
+   its dedicated ports.  NOT claimed for prune: it never disconnects (known finding). *)
 Theorem C08_artefact_ports_deleted : forall ex o cs g r g' tr,
   run (exec ex o cs) g = (inl r, (g', tr)) ->
   forall ii l sp, disc_ifs g o ii -> link2 g l ii sp -> type_of g sp = T_ServicePort -> In sp tr.
 Proof. exact artefact_ports_deleted. Qed.
 Print Assumptions C08_artefact_ports_deleted.
 
-(* unpeer of two services not joined by service - port - link - port - service (four `connects` edges) raises and
-   deletes nothing, for every graph (refuted before fix 13b815d) *)
+(* unpeer of two services not joined by service - ServicePort - link - ServicePort - service (four `connects` edges
+   whose inner ends are both ServicePorts) raises and deletes nothing, for every graph (refuted before fix 13b815d;
+   the ServicePort condition is fix 0d94156) *)
 Theorem C08_unpeer_only_peered : forall ex a b cs g r g' tr,
   run (exec ex (OUnpeer a b) cs) g = (r, (g', tr)) ->
-  (forall x m y, In x (cn g a) -> In m (cn g x) -> In y (cn g m) -> ~ In b (cn g y)) ->
+  (forall x m y, In x (cn g a) -> In m (cn g x) -> In y (cn g m) -> In b (cn g y) ->
+                 ~ (type_of g x = T_ServicePort /\ type_of g y = T_ServicePort)) ->
   (exists e, r = inr e) /\ tr = [] /\ g' = g.
 Proof. exact unpeer_only_peered. Qed.
 Print Assumptions C08_unpeer_only_peered.
@@ -192,9 +195,23 @@ Example C08_nonvacuous_artefact :
 Proof. repeat (split; [apply ex_remove_node_n1|]). exact link2_G1_17. Qed.
 
 Example C08_nonvacuous_not_peered :
-  (forall x m y, In x (cn G3 1) -> In m (cn G3 x) -> In y (cn G3 m) -> ~ In 2%N (cn G3 y)) /\
-  fst (run (exec true (OUnpeer 1 2) [[3%N]; [9%N]]) G3) = inr ETopology.
-Proof. split; [exact G3_not_peered | apply ex_unpeer_not_peered]. Qed.
+  (forall x m y, In x (cn G3 1) -> In m (cn G3 x) -> In y (cn G3 m) -> In 2%N (cn G3 y) ->
+                 ~ (type_of G3 x = T_ServicePort /\ type_of G3 y = T_ServicePort)) /\
+  fst (run (exec true (OUnpeer 1 2) [[3%N]; [9%N]]) G3) = inr ETopology /\
+  (* a chain exists but one end is a node port *)
+  unpeer_ends G7 1 5 = Some [(2, 4)%N] /\ both_sp G7 (2, 4)%N = false /\
+  fst (run (exec true (OUnpeer 1 5) [[2%N]; [4%N]]) G7) = inr ETopology.
+Proof.
+  split; [intros x m y A B C D _; exact (G3_not_peered x m y A B C D)|].
+  split; [apply ex_unpeer_not_peered|]. repeat (split; [apply ex_unpeer_node_port|]). apply ex_unpeer_node_port.
+Qed.
+
+(* removing a peered service through the API takes the other service's port with it *)
+Example C08_nonvacuous_remove_peered_service :
+  by_name G2 CNS 1 = [1%N] /\ disc_list G2 (cpn G2 1) = [3%N] /\ type_of G2 4 = T_ServicePort /\
+  ok_of (run (exec true (ORemoveNsTopo 1) []) G2) = true /\
+  trace_of (run (exec true (ORemoveNsTopo 1) []) G2) = [1; 3; 4; 5]%N /\ link2 G2 5 3 4.
+Proof. repeat (split; [apply ex_remove_peered_service|]). exact link2_G2_5. Qed.
 
 Example C08_nonvacuous_handles_remove :
   class_of G5 1 = CNS /\ cpn G5 1 = [2%N] /\ cpn G5 2 = [] /\
